@@ -1,6 +1,7 @@
 import Mimium.Props.C13
 import Mimium.Proofs.ParserLoops
 import Mimium.Gen.ParserLoops
+import Mimium.Proofs.Occurs
 /-!
 # C04 — front end and compile entry points are total on arbitrary text
 
@@ -25,7 +26,14 @@ PROVED here (all inputs, no bounds; axioms ⊆ {propext, Classical.choice, Quot.
   statement names carry a loop of the guarded shape (and `tools/extract.py` refuses any loop outside the proven shapes).
 * `C04_error_spans_inside` — the span `parser_errors_to_reportable` gives to a parser error (`tokens[token_index]`, else the
   last token, else `0..0`) satisfies `start ≤ end ≤ len` on character boundaries, for EVERY `token_index`.
-* `C04_unify_*` — see the second half: unification with occurs check as a total function.
+* Three pieces of the type checker, ported literally in `Model/Occurs.lean`, on which the statement FAILS for the pinned tree
+  (each refuted on its concrete witness, with the part that does hold kept as a `…_partial` theorem; the witnesses are
+  replayed on the real code by every check run, findings T11, T13, T19 of `known_findings.jsonl`):
+  `C04_occur_check_total_partial` (on every store without parent cycles `occur_check` returns) vs
+  `C04_occur_check_counterexample` (the `&&` in the function-type arm lets `a := (a) -> b` through, the store becomes cyclic,
+  and then `occur_check` never returns — the real type checker overflows its stack in `occur_check` on `fn f(x){ x(x) }`);
+  `C04_tuple_projection_partial` / `_counterexample` (`t.2` on a pair reaches `vec[2]`: the range check is off by one);
+  `C04_stage_counter_partial` / `_counterexample` (255 nested quotes overflow the `u8` stage counter).
 
 NOT proved (decided by the correspondence run of `tools/props/c04.py`): that the Rust grammar functions terminate as a whole
 (mutual recursion between the grammar functions is not modelled; each loop is proved to terminate GIVEN that the calls in its
@@ -134,6 +142,87 @@ theorem C04_error_spans_inside (C : Classes) (T : Tables) (ok : TablesOk T = tru
     · rename_i t ht
       exact key t (List.mem_of_getLast? ht)
     · exact ⟨Nat.le_refl _, Nat.zero_le _, ⟨[], List.nil_prefix, rfl⟩, ⟨[], List.nil_prefix, rfl⟩⟩
+
+/-! ## Where the statement fails on the pinned tree: three pieces of the type checker (findings T11, T13, T19) -/
+
+open Mimium.Occurs in
+/-- PARTIAL (what holds): on every store whose parent pointers have no cycle, `occur_check` returns — for each variable and
+type there is a fuel bound above which the model answers, with or without the `&&` quirk. -/
+theorem C04_occur_check_total_partial (σ : Store) (h : Acyclic σ) (andQuirk : Bool) (id1 : Nat) (t : Ty) :
+    ∃ F b, ∀ fuel, F ≤ fuel → occ σ andQuirk id1 fuel t = some b :=
+  answers_of_acyclic σ andQuirk id1 h t
+
+open Mimium.Occurs in
+/-- NEGATION on the concrete witness `fn f(x){ x(x) }` (x : ?0, result : ?1, so `?0` is unified with `(?0) -> ?1`):
+the occurs check as written (`cls(arg) && cls(ret)`) answers `false`, the binding step installs `?0 := (?0) -> ?1`, the store
+is cyclic, and from then on the occurs check of any other variable against `?0` does not return for ANY amount of fuel
+(the real code recurses until the stack overflows: finding T11).  With `||` the binding is refused (`CircularType`).
+Hence "type checking terminates on every text" is false for the pinned tree. -/
+theorem C04_occur_check_counterexample :
+    bindVar [] true 8 0 (.fn (.var 0) (.var 1)) = some (some cyclicStore) ∧
+    bindVar [] false 8 0 (.fn (.var 0) (.var 1)) = some none ∧
+    ¬ Acyclic cyclicStore ∧
+    (∀ fuel, occ cyclicStore true 2 fuel (.var 0) = none) ∧
+    ¬ (∀ (σ : Store) (id1 : Nat) (t : Ty), ∃ F b, ∀ fuel, F ≤ fuel → occ σ true id1 fuel t = some b) := by
+  refine ⟨by decide, by decide, ?_, fun fuel => (occ_diverges 2 (by decide) fuel).1, ?_⟩
+  · rintro ⟨rk, hrk⟩
+    have := hrk 0 (.fn (.var 0) (.var 1)) (by decide) 0 (by decide)
+    exact Nat.lt_irrefl _ this
+  · intro h
+    obtain ⟨F, b, hF⟩ := h cyclicStore 2 (.var 0)
+    have := hF F (Nat.le_refl _)
+    rw [(occ_diverges 2 (by decide) F).1] at this
+    cases this
+
+open Mimium.Occurs in
+/-- PARTIAL: the range check of tuple projection is right for every index except `idx = len`: below it yields the element,
+above it the `IndexOutOfRange` diagnostic; the out-of-bounds access happens exactly at `idx = len`. -/
+theorem C04_tuple_projection_partial {α : Type} (vec : List α) (idx : Nat) :
+    (idx < vec.length → ∃ x, projCheck vec idx = .ok (some x)) ∧
+    (vec.length < idx → projCheck vec idx = .error ()) ∧
+    (projCheck vec idx = .ok none ↔ idx = vec.length) := by
+  unfold projCheck
+  refine ⟨fun h => ⟨vec[idx], by simp [Nat.not_lt.mpr (Nat.le_of_lt h), List.getElem?_eq_getElem h]⟩,
+          fun h => by simp [h], ?_⟩
+  constructor
+  · intro h
+    split at h
+    · cases h
+    · rename_i hn
+      injection h with h
+      have := List.getElem?_eq_none_iff.mp h
+      omega
+  · intro h
+    subst h
+    simp
+
+open Mimium.Occurs in
+/-- NEGATION on the witness `fn dsp(){ let t = (1.0, 2.0)\n t.2 }`: index 2 on a pair passes the range check and reaches
+`vec[2]` — Rust's index panic inside `infer_type` (finding T13); index 3 is diagnosed. -/
+theorem C04_tuple_projection_counterexample :
+    projCheck [1, 2] 2 = .ok none ∧ projCheck [1, 2] 3 = .error () ∧ projCheck [1, 2] 1 = .ok (some 2) :=
+  ⟨rfl, rfl, rfl⟩
+
+open Mimium.Occurs in
+/-- PARTIAL: up to 255 nested quote levels the stage counter is exact. -/
+theorem C04_stage_counter_partial (k : Nat) (h : k ≤ 255) : nestQuotes k 0 = some k := by
+  have gen : ∀ k s, s + k ≤ 255 → nestQuotes k s = some (s + k) := by
+    intro k
+    induction k with
+    | zero => intro s _; simp [nestQuotes]
+    | succ k ih =>
+      intro s hs
+      have h1 : s + 1 ≤ 255 := by omega
+      simp only [nestQuotes, incrementStage, h1, if_true]
+      rw [ih (s + 1) (by omega)]
+      congr 1; omega
+  simpa using gen k 0 (by omega)
+
+open Mimium.Occurs in
+/-- NEGATION on the witness of 255 back quotes followed by `1` (a well-formed program; `wrap_to_staged_expr` adds one more
+level): the 256th increment of the `u8` counter overflows (finding T19), although the nesting depth is below the bound 256. -/
+theorem C04_stage_counter_counterexample : nestQuotes (255 + 1) 0 = none ∧ nestQuotes (254 + 1) 0 = some 255 := by
+  decide +kernel
 
 /-- non-vacuity: `(a,` — a guarded loop on a three-token input whose statement parser makes no progress on the first token
 is left after three iterations by the recovery `bump`s alone. -/
